@@ -78,6 +78,7 @@ func checkIstio(origSpec, curSpec interface{}, s *v1beta1.TrafficRoutingStrategy
 				return "custom-istio-matches-without-match", fmt.Sprintf("inserted rule %d has no match: %s", i, cj(ch[i], false))
 			}
 		}
+		vlib.Class(chkC15, "istio:matches-step-checked")
 		exp["http"] = append(append([]interface{}{}, ch[:k]...), oh...)
 		if !looseEq(exp, cur) {
 			return "custom-istio-matches-touched-other", fmt.Sprintf("a matches step changed more than inserting %d rules in front:\n want %s\n got  %s", k, cjFloat(exp, true), cjFloat(cur, true))
@@ -92,6 +93,7 @@ func checkIstio(origSpec, curSpec interface{}, s *v1beta1.TrafficRoutingStrategy
 		for i := range rules {
 			rule := asMap(rules[i])
 			if _, has := rule["match"]; has {
+				vlib.Class(chkC15, "istio:match-rule-untouched-checked")
 				continue // must stay untouched
 			}
 			route := asList(rule["route"])
@@ -103,7 +105,9 @@ func checkIstio(origSpec, curSpec interface{}, s *v1beta1.TrafficRoutingStrategy
 			}
 			switch {
 			case m == 0: // other hosts: untouched
+				vlib.Class(chkC15, "istio:other-host-rule-untouched-checked")
 			case m == 1 && len(route) == 1:
+				vlib.Class(chkC15, "istio:single-stable-split-checked-"+proto)
 				r0 := asMap(route[0])
 				sw := float64(100 - w)
 				if ow, ok := r0["weight"]; ok {
@@ -119,6 +123,7 @@ func checkIstio(origSpec, curSpec interface{}, s *v1beta1.TrafficRoutingStrategy
 				r0["weight"] = sw
 				rule["route"] = []interface{}{r0, map[string]interface{}{"destination": canaryDestination(stable, canary), "weight": float64(w)}}
 			default:
+				vlib.Class(chkC15, "istio:multi-destination-rule-not-asserted")
 				rules[i] = crules[i] // several destinations including stable: nothing claimed
 			}
 		}
@@ -189,6 +194,25 @@ func strMapEq(a, b map[string]string) bool {
 	return reflect.DeepEqual(a, b)
 }
 
+// errClass names the reason of a tolerated EnsureRoutes error for the class histogram.
+func errClass(err error) string {
+	m := err.Error()
+	switch {
+	case isLuaDeadline(err):
+		return "step-error:lua-deadline-of-1s-exceeded-on-busy-machine"
+	case strings.Contains(m, "to ipairs"):
+		return "step-error:vs-rule-without-route-and-match"
+	case strings.Contains(m, "to insert"):
+		return "step-error:script-inserts-into-missing-list"
+	case strings.Contains(m, "cannot encode"):
+		return "step-error:lua-table-not-encodable"
+	}
+	if len(m) > 60 {
+		m = m[:60]
+	}
+	return "step-error:other:" + m
+}
+
 func failPanic(t vlib.TB, chk string, c *Case, where string, r callResult) {
 	if r.panicked {
 		vlib.Fail(t, chk, "custom-panic-"+where, c, "%s panicked: %s", where, r.pmsg)
@@ -221,7 +245,7 @@ func checkRestored(t vlib.TB, c *Case, w *world, j int, when string) {
 }
 
 func runC15(t vlib.TB, c *Case) {
-	A := newWorld(c, false)
+	A := newWorld(chkC15, c, false)
 	r := A.initialize()
 	failPanic(t, chkC15, c, "initialize", r)
 	if r.err != nil {
@@ -232,7 +256,7 @@ func runC15(t vlib.TB, c *Case) {
 		_, ra := A.ensureToFixpoint(s, maxCalls)
 		failPanic(t, chkC15, c, "ensureroutes", ra)
 		if ra.err != nil {
-			vlib.Class(chkC15, "step-error")
+			vlib.Class(chkC15, "step-error", errClass(ra.err))
 		} else {
 			vlib.Class(chkC15, "step-ok")
 			if !ra.done {
@@ -241,13 +265,15 @@ func runC15(t vlib.TB, c *Case) {
 		}
 		// (1) statelessness: a fresh world that only ever sees step i
 		if i > 0 {
-			B := newWorld(c, false)
-			_, rb := B.ensureToFixpoint(s, maxCalls)
+			// one call writes the step's configuration; whether a second call would write
+			// again is the fixed-point sub-check's business
+			B := newWorld(chkC15, c, false)
+			rb := B.ensure(s)
 			failPanic(t, chkC15, c, "ensureroutes", rb)
-			if (ra.err != nil) != (rb.err != nil) {
+			if (ra.err != nil) != (rb.err != nil) && !isLuaDeadline(ra.err) && !isLuaDeadline(rb.err) {
 				vlib.Fail(t, chkC15, "custom-stateless-error-divergence", c, "step %d: after the history error=%v, on a fresh object error=%v", i, ra.err, rb.err)
 			}
-			if ra.err == nil {
+			if ra.err == nil && rb.err == nil {
 				for j := range c.Refs {
 					ua, ea := A.get(j)
 					ub, eb := B.get(j)
